@@ -12,11 +12,35 @@
   OBLIGATION c20_sound_partial
   OBLIGATION c20_witness_abstract
   OBLIGATION c20_witness_spread
-  OPEN c20_sound
-  OPEN c20_exact
+  OBLIGATION c20_inclusion
+  OBLIGATION c20_sound
+  OBLIGATION c20_exact
+  OBLIGATION c20_sound_unconditional_false
+  OBLIGATION c20_exact_unconditional_false
+  OBLIGATION c20_hypotheses_needed
+
+  `c20_sound` and `c20_exact` were first written down without hypotheses (kept below as
+  `c20_sound_unconditional`, `c20_exact_unconditional`); in that form they are FALSE of the model
+  and the spec (`c20_sound_unconditional_false`, `c20_exact_unconditional_false`,
+  `c20_hypotheses_needed`): the reference execution and the visitor only agree on documents that
+  passed validation.  The theorems carry the hypotheses as explicit predicates
+  (Lemmas/CacheReach.lean):
+    `WfSchema S`  type names unique; union members are object types; a field of a possible runtime
+                  type returns a subtype of what the abstract type declares for it (covariance)
+    `WfDoc S d`   every operation has an object root type and a non-empty selection set; in every
+                  operation and fragment definition: fields exist on their parent type
+                  (FieldsOnCorrectType), composite fields have a selection set (ScalarLeafs), the
+                  response key determines the field name (the part of
+                  OverlappingFieldsCanBeMerged that execution relies on when it merges equally
+                  keyed fields)
+  No acyclicity hypothesis and no fuel bound on the document are needed: the visitor fuel `M` is
+  existentially quantified after the fuel `n` of the reference execution (`c20_sound`), resp. is
+  the unfolding depth `n` of `objOnly` (`c20_exact`).
 -/
 import AGV.Lemmas.Cache
 import AGV.Lemmas.CacheCombine
+import AGV.Lemmas.CacheReach
+import AGV.Lemmas.CacheExact
 
 namespace AGV.Props.C20
 open AGV.Core AGV.Core.Cache AGV.Model.CacheControl AGV.Spec.Cache AGV.Spec.Exec AGV.Lemmas.Cache
@@ -136,16 +160,54 @@ theorem c20_sound_partial (S : Schema) (H : Hints) (d : Doc) (opName : Option St
     ∀ k ∈ reachRequest S d opName raw n, noLooser (policy {} S H d m) (hintOf H k) :=
   fun k hk => c20_policy_bounds_visited {} S H d m k (hincl k hk)
 
-/-- OPEN: the traversal inclusion itself for valid documents over well-formed schemas (needs:
-    unique type names, covariant interface field types, FieldsOnCorrectType for the document, and
-    `m` large enough for the fragment nesting).  Checked per generated case by the judge. -/
-def c20_sound : Prop :=
+/-- The traversal inclusion reach ⊆ visited.  For a well-formed schema (`WfSchema`: unique type
+    names, union members are object types, interface fields covariant in the implementors) and a
+    well-formed document (`WfDoc`: every operation has an object root type and a non-empty
+    selection set; in every operation and fragment definition fields exist on their parent type,
+    composite fields have a selection set, and the response key determines the field name):
+    beyond some fuel `M` the repaired visitor merges every object type and field that the
+    reference execution of the selected operation can put into the response — any variable
+    values, any world, every possible runtime type, any fuel `n` of the reference execution.
+    No acyclicity hypothesis is needed: `M` may depend on `n`. -/
+theorem c20_inclusion (S : Schema) (d : Doc) (opName : Option String) (raw : List (String × GValue)) (n : Nat)
+    (hS : WfSchema S) (hd : WfDoc S d) :
+    ∃ M, ∀ m ≥ M, ∀ k ∈ reachRequest S d opName raw n, k ∈ visitDoc {} S d m :=
+  exists_common_fuel {} S d _ (reachRequest_visited hS hd opName raw n)
+
+/-- Soundness: for a well-formed schema and document the policy computed by the repaired visitor
+    (any fuel beyond some `M`) is no looser than the hint of ANY object type or field whose data the
+    response can contain. -/
+theorem c20_sound (S : Schema) (H : Hints) (d : Doc) (opName : Option String) (raw : List (String × GValue))
+    (n : Nat) (hS : WfSchema S) (hd : WfDoc S d) :
+    ∃ M, ∀ m ≥ M, ∀ k ∈ reachRequest S d opName raw n, noLooser (policy {} S H d m) (hintOf H k) := by
+  obtain ⟨M, hM⟩ := c20_inclusion S d opName raw n hS hd
+  exact ⟨M, fun m hm => c20_sound_partial S H d opName raw n m (hM m hm)⟩
+
+/-- the statement without the well-formedness hypotheses (as it was first written down) -/
+def c20_sound_unconditional : Prop :=
   ∀ (S : Schema) (H : Hints) (d : Doc) (opName : Option String) (raw : List (String × GValue)) (n : Nat),
     ∃ M, ∀ m ≥ M, ∀ k ∈ reachRequest S d opName raw n, noLooser (policy {} S H d m) (hintOf H k)
 
-/-- OPEN: for a single operation with selections only on object types and no @skip/@include the
-    policy equals the combination of the hints of what the response contains. -/
-def c20_exact : Prop :=
+/-- Exactness: for a well-formed schema and a well-formed document that is a single operation with
+    selections only on object types and no @skip/@include (`objOnly`, unfolding depth at most `n`),
+    from fuel `n` on the policy EQUALS the combination (private if any, no-cache if any, else the
+    least positive max-age) of the hints of exactly the object types and fields the response can
+    contain.  The repaired visitor and the reference execution (`reachRequest`, same fuel) reach
+    the same set of keys (`visited_iff_reach`). -/
+theorem c20_exact (S : Schema) (H : Hints) (d : Doc) (raw : List (String × GValue)) (n : Nat)
+    (hS : WfSchema S) (hd : WfDoc S d) (hoo : objOnly S d n = true) (hv : ∀ p ∈ H, -1 ≤ p.2.maxAge) :
+    ∃ M, ∀ m ≥ M, policy {} S H d m = combine ((reachRequest S d none raw m).map (hintOf H)) := by
+  refine ⟨n, fun m hm => ?_⟩
+  rw [c20_exact_visited {} S H d m hv]
+  apply combine_congr
+  intro x
+  simp only [List.mem_map]
+  constructor
+  · rintro ⟨k, hk, rfl⟩; exact ⟨k, (visited_iff_reach hS hd hoo raw hm k).1 hk, rfl⟩
+  · rintro ⟨k, hk, rfl⟩; exact ⟨k, (visited_iff_reach hS hd hoo raw hm k).2 hk, rfl⟩
+
+/-- the statement without the well-formedness hypotheses (as it was first written down) -/
+def c20_exact_unconditional : Prop :=
   ∀ (S : Schema) (H : Hints) (d : Doc) (raw : List (String × GValue)) (n : Nat),
     objOnly S d n = true → (∀ p ∈ H, -1 ≤ p.2.maxAge) →
     ∃ M, ∀ m ≥ M, policy {} S H d m = combine ((reachRequest S d none raw m).map (hintOf H))
@@ -196,5 +258,110 @@ theorem c20_witness_spread :
 
 /-- the hypothesis of `c20_exact_visited` holds for a non-trivial table -/
 example : ∀ p ∈ exH, -1 ≤ p.2.maxAge := by decide
+
+-- ------------------------------------------------------------------ the hypotheses are needed, and satisfiable
+
+/-- `WfSchema` holds for the example schema (interface `I` = {A, B}, union `U` = {A, C}) -/
+example : WfSchema exS := ⟨by decide, by decide, by decide⟩
+
+/-- `WfDoc` holds for `{ i { x } }` and for `{ u { ...F } } fragment F on C { a { x } }` -/
+example : WfDoc exS exDoc1 := ⟨id, by decide, by decide⟩
+example : WfDoc exS exDoc2 := ⟨id, by decide, by decide⟩
+
+def exS6 : Schema :=
+  { query := "Query"
+    types := [
+      { name := "Query", kind := .object, fields := [⟨"c", .named "C", []⟩] },
+      { name := "C", kind := .object, fields := [⟨"a", .list (.named "A"), []⟩, ⟨"n", .named "Int", []⟩] },
+      { name := "A", kind := .object, fields := [⟨"x", .nonNull (.named "Int"), []⟩] },
+      { name := "Int", kind := .scalar }] }
+
+/-- `{ c { ...F a { x } ... on C { n } } } fragment F on C { k: a { ...G } ...G2 } fragment G on A { x __typename }
+    fragment G2 on C { ...on C { n } }` -/
+def exDoc6 : Doc :=
+  { ops := [{ ty := .query, name := none, vars := [], dirs := [],
+              sels := [.field none "c" [] [] [.spread "F" [] ⟨1, 7⟩,
+                                              .field none "a" [] [] [.field none "x" [] [] [] ⟨1, 18⟩] ⟨1, 14⟩,
+                                              .inline (some "C") [] [.field none "n" [] [] [] ⟨1, 35⟩] ⟨1, 24⟩] ⟨1, 3⟩] }],
+    frags := [{ name := "F", cond := "C", dirs := [],
+                sels := [.field (some "k") "a" [] [] [.spread "G" [] ⟨2, 30⟩] ⟨2, 20⟩, .spread "G2" [] ⟨2, 40⟩] },
+              { name := "G", cond := "A", dirs := [],
+                sels := [.field none "x" [] [] [] ⟨3, 20⟩, .field none "__typename" [] [] [] ⟨3, 22⟩] },
+              { name := "G2", cond := "C", dirs := [],
+                sels := [.inline (some "C") [] [.field none "n" [] [] [] ⟨4, 30⟩] ⟨4, 20⟩] }] }
+
+/-- the hypotheses of `c20_exact` hold for a document with an alias, named fragments (one nested in
+    another) and an inline fragment -/
+example : WfSchema exS6 ∧ WfDoc exS6 exDoc6 ∧ objOnly exS6 exDoc6 5 = true :=
+  ⟨⟨by decide, by decide, by decide⟩, ⟨fun s => if s = "k" then "a" else s, by decide, by decide⟩, by decide⟩
+
+def s0 : Schema := { query := "Query", types := [{ name := "Query", kind := .object }] }
+/-- a query operation with an empty selection set -/
+def d0 : Doc := { ops := [{ ty := .query, name := none, vars := [], dirs := [], sels := [] }], frags := [] }
+def h0 : Hints := [(⟨"Query", none⟩, ⟨false, 0⟩)]
+
+theorem policy_d0 (m : Nat) : policy {} s0 h0 d0 m = CC.default := by
+  simp [policy, visitDoc, d0, rootOf, visitSet_nil, foldHints]
+
+/-- Without the hypotheses the statements are false (so they are not what is claimed): the
+    reference execution puts the root object into the response even for an empty selection set,
+    which the visitor never enters.  (`WfDoc` excludes it: `op.sels ≠ []`.) -/
+theorem c20_sound_unconditional_false : ¬ c20_sound_unconditional := by
+  intro h
+  obtain ⟨M, hM⟩ := h s0 h0 d0 none [] 1
+  have := hM M (Nat.le_refl _) ⟨"Query", none⟩ (by decide)
+  rw [policy_d0] at this
+  revert this
+  decide
+
+theorem c20_exact_unconditional_false : ¬ c20_exact_unconditional := by
+  intro h
+  obtain ⟨M, hM⟩ := h s0 h0 d0 [] 1 (by decide) (by decide)
+  have := hM (M + 1) (Nat.le_succ _)
+  rw [policy_d0] at this
+  have hr : reachRequest s0 d0 none [] (M + 1) = [⟨"Query", none⟩] := rfl
+  rw [hr] at this
+  revert this
+  decide
+
+def exS3 : Schema :=
+  { query := "Query"
+    types := [
+      { name := "Query", kind := .object, fields := [⟨"x", .named "X", []⟩, ⟨"y", .named "Y", []⟩] },
+      { name := "X", kind := .object, fields := [⟨"p", .named "Int", []⟩, ⟨"q", .named "Int", []⟩] },
+      { name := "Y", kind := .object, fields := [⟨"q", .named "Int", []⟩] },
+      { name := "Int", kind := .scalar }] }
+
+/-- `{ k: x { p } k: y { q } }` -/
+def exDoc3 : Doc :=
+  { ops := [{ ty := .query, name := none, vars := [], dirs := [],
+              sels := [.field (some "k") "x" [] [] [.field none "p" [] [] [] ⟨1, 10⟩] ⟨1, 3⟩,
+                       .field (some "k") "y" [] [] [.field none "q" [] [] [] ⟨1, 22⟩] ⟨1, 15⟩] }], frags := [] }
+
+/-- `{ u { a { x } } }`: `a` is not a field of the union `U` -/
+def exDoc4 : Doc :=
+  { ops := [{ ty := .query, name := none, vars := [], dirs := [],
+              sels := [.field none "u" [] [] [.field none "a" [] [] [.field none "x" [] [] [] ⟨1, 11⟩] ⟨1, 7⟩] ⟨1, 3⟩] }],
+    frags := [] }
+
+/-- `{ i }`: a composite field without a selection set -/
+def exDoc5 : Doc :=
+  { ops := [{ ty := .query, name := none, vars := [], dirs := [], sels := [.field none "i" [] [] [] ⟨1, 3⟩] }],
+    frags := [] }
+
+/-- Each document rule in `WfDoc` is needed (the real server rejects these documents in validation,
+    before a policy is computed).  Equal response keys with different field names: execution runs
+    the first field with the MERGED selection set, so `X.q` is in the data although `q` was written
+    under `y : Y`.  A field that does not exist on its (abstract) parent type: the visitor loses
+    the type below it.  A composite field without selection set: the visitor never enters it. -/
+theorem c20_hypotheses_needed :
+    (WfSchema exS3 ∧ (⟨"X", some "q"⟩ : Key) ∈ reachRequest exS3 exDoc3 none [] 6 ∧
+      ¬ noLooser (policy {} exS3 [(⟨"X", some "q"⟩, ⟨false, 0⟩)] exDoc3 6) ⟨false, 0⟩) ∧
+    ((⟨"A", some "x"⟩ : Key) ∈ reachRequest exS exDoc4 none [] 6 ∧
+      ¬ noLooser (policy {} exS exH exDoc4 6) (hintOf exH ⟨"A", some "x"⟩)) ∧
+    ((⟨"A", none⟩ : Key) ∈ reachRequest exS exDoc5 none [] 6 ∧
+      ¬ noLooser (policy {} exS exH exDoc5 6) (hintOf exH ⟨"A", none⟩)) := by
+  refine ⟨⟨⟨by decide, by decide, by decide⟩, by decide, by decide⟩, ⟨by decide, by decide⟩, ⟨by decide, by decide⟩⟩
+
 
 end AGV.Props.C20
